@@ -194,3 +194,136 @@ def c13(ctx, rep):
     rep.cov["distribution"] = dict(counts)
     rep.cov["time_limit_s"] = tmo
     rep.samples.append({"flags": work[0][2], "grammar_text": work[0][1].decode("utf-8", "replace")[:400]})
+
+# ------------------------------------------------------------------ C04 (emitted code compiles, vets, initialises)
+C04_FLAGS = ["-optimize-parser", "-optimize-grammar", "-optimize-basic-latin", "-support-left-recursion", "-nolint", "-cache"]
+
+def known_c04(ctx):
+    return {k["id"]: k for k in C.known_findings().get("findings", []) if k["property"] == "C04" and k.get("status") == "known"}
+
+def build_generated(ctx, src, tag):
+    """go build + go vet + run (package initialisation) of an emitted parser; returns (stage, output)"""
+    d = ctx.sc.path("c04", tag, "x")
+    d = os.path.dirname(d)
+    with open(os.path.join(d, "parser.go"), "wb") as f:
+        f.write(src)
+    with open(os.path.join(d, "main.go"), "w") as f:
+        f.write("package main\n\nfunc main() {}\n")
+    with open(os.path.join(d, "go.mod"), "w") as f:
+        f.write("module c04case\n\ngo 1.25.0\n")
+    env = C.go_env()
+    p = subprocess.run(["go", "build", "-o", "prog", "."], cwd=d, env=env, stdout=subprocess.PIPE, stderr=subprocess.STDOUT, text=True, timeout=600)
+    if p.returncode != 0:
+        return "compile", p.stdout[-2500:]
+    p = subprocess.run(["go", "vet", "."], cwd=d, env=env, stdout=subprocess.PIPE, stderr=subprocess.STDOUT, text=True, timeout=600)
+    if p.returncode != 0:
+        return "vet", p.stdout[-2500:]
+    p = subprocess.run([os.path.join(d, "prog")], stdout=subprocess.PIPE, stderr=subprocess.STDOUT, text=True, timeout=60)
+    if p.returncode != 0:
+        return "init", p.stdout[-2500:]
+    shutil.rmtree(d, ignore_errors=True)
+    return "ok", ""
+
+def replay_c04_known(ctx, k):
+    rc, out, err = run_tool(ctx.pigeon(), k["grammar"].encode(), k.get("flags", []), 60)
+    if rc != 0:
+        return False
+    stage, msg = build_generated(ctx, out, "kf_" + k["id"])
+    return stage == "compile" and k.get("signature", "") in msg
+
+@prop("C04", replay_known=replay_c04_known)
+def c04(ctx, rep):
+    rnd = random.Random(ctx.seed)
+    pigeon = ctx.pigeon()
+    tool = C.build_harness_tool(ctx.sc, "fronttool")
+    n = ctx.q(70, 1500)
+    cases = []
+    for extra in ([], ["-digitnames"]):
+        p = C.run([tool, "-seed", str(ctx.seed), "-n", str(n if not extra else max(10, n // 3)), "-compilable"] + extra, timeout=1200)
+        for l in p.stdout.splitlines():
+            d = json.loads(l)
+            d["digitnames"] = bool(extra)
+            cases.append(d)
+    # shape families: label names shared between rules (inlining), nested actions, method-name arithmetic,
+    # every Unicode class name the front-end accepts
+    hdr = "{\npackage main\n}\n"
+    fam = []
+    fam.append(("inline-shared-label", hdr + "A <- B l1:C { return l1, nil }\nB <- l1:'a' { return l1, nil }\nC <- 'c'\n", [[], ["-optimize-grammar"], ["-optimize-grammar", "-optimize-parser"]]))
+    fam.append(("nested-action", hdr + "A <- ( l1:'a' { return l1, nil } ) l2:'c' { return l2, nil }\n", [[], ["-optimize-grammar"]]))
+    for k in range(1, 13):
+        fam.append(("method-index-%d" % k, hdr + "Start <- A A1\nA <- %s &{ return true, nil }\nA1 <- &{ return true, nil }\n" % " ".join("'a'" for _ in range(k)),
+                    [[], ["-optimize-parser"]]))
+    ucl = re.findall(r'^\t"(\w+)":', open(os.path.join(C.REPO, "unicode_classes.go")).read(), re.M)
+    for i in range(0, len(ucl), 40):
+        chunk = ucl[i:i + 40]
+        fam.append(("unicode-classes-%d" % i, hdr + "A <- " + " / ".join("[\\p{%s}]" % n if len(n) > 1 else "[\\p%s]" % n for n in chunk) + "\n",
+                    [[], ["-optimize-basic-latin"], ["-optimize-parser", "-optimize-grammar"]]))
+    work = []
+    for name, text, flagsets in fam:
+        for fl in flagsets:
+            cases.append({"text": text, "methods": None, "digitnames": True, "family": name})
+            work.append((len(cases) - 1, cases[-1], list(fl)))
+    nfam = len(work)
+    for i, d in enumerate(cases):
+        if d.get("family"):
+            continue
+        fl = [f for f in C04_FLAGS if rnd.random() < 0.4]
+        if rnd.random() < 0.15:
+            fl += ["-receiver-name", "p"]
+        work.append((i, d, fl))
+    kf = known_c04(ctx)
+    counts = collections.Counter()
+    def one(w):
+        i, d, fl = w
+        text = d["text"]
+        if "-receiver-name" in fl:
+            # the blocks are written against the receiver the grammar is generated with
+            text = re.sub(r"\bc\.(text|pos|state)\b", r"p.\1", text)
+            d["text"] = text
+        rc, out, err = run_tool(pigeon, text.encode(), fl, 120)
+        if rc != 0:
+            return w, rc, err, None, None, out
+        stage, msg = build_generated(ctx, out, "c%d" % i)
+        return w, rc, err, stage, msg, out
+    with concurrent.futures.ThreadPoolExecutor(max_workers=C.NCPU) as ex:
+        results = list(ex.map(one, work))
+    for (i, d, fl), rc, err, stage, msg, out in results:
+        payload = {"grammar_text": d["text"], "flags": fl, "how": "pigeon <flags> -o parser.go; go build; go vet; run"}
+        if d.get("family"):
+            counts["family:" + d["family"].rstrip("0123456789-")] += 1
+        if rc != 0:
+            counts["rejected:%s" % rc] += 1
+            if rc not in (5,) or "goroutine " in err:
+                rep.violation("pigeon does not accept a grammar of the documented syntax with well-typed blocks (status %s): %s" % (rc, err.strip()[:200]),
+                              dict(payload, stderr=err[-2000:]), found=True)
+            continue
+        counts["accepted"] += 1
+        counts["stage:" + stage] += 1
+        if stage != "ok":
+            hit = None
+            for k in kf.values():
+                if k.get("signature") and k["signature"] in msg and all(f in fl for f in k.get("needs_flags", [])) and \
+                   (not k.get("needs_digitnames") or d["digitnames"]):
+                    hit = k["id"]
+            if hit:
+                counts["known:" + hit] += 1
+                continue
+            rep.violation("the emitted parser fails at '%s': %s" % (stage, msg.strip().splitlines()[-1][:200] if msg.strip() else ""),
+                          dict(payload, stage=stage, output=msg), found=True)
+            continue
+        # one method per code block, with exactly the labels in scope (not comparable after -optimize-grammar rewrote the rules)
+        if "-optimize-grammar" not in fl and not d.get("family"):
+            recv = "p" if "-receiver-name" in fl else "c"
+            meths = re.findall(r"^func \(%s \*current\) (on\w+)\(([^)]*)\)" % recv, out.decode("utf-8", "replace"), re.M)
+            got = [[a.strip().split(" ")[0] for a in params.split(",") if a.strip()] for _, params in meths]
+            names = [m[0] for m in meths]
+            if len(set(names)) != len(names):
+                rep.violation("two code blocks share one method name", dict(payload, methods=names), found=True)
+            if got != (d["methods"] or []):
+                rep.violation("code-block methods do not receive exactly the labels in scope: expected %s, emitted %s" % (d["methods"], got),
+                              dict(payload, expected=d["methods"], emitted=got), found=True)
+            counts["methods_compared"] += len(got)
+    rep.cov["evaluations"] = len(work)
+    rep.cov["distinct_nontrivial"] = len({hashlib.sha1((w[1]["text"] + " ".join(w[2])).encode()).hexdigest() for w in work})
+    rep.cov["distribution"] = dict(counts)
+    rep.samples.append({"flags": work[0][2], "grammar_text": work[0][1]["text"][:400]})
